@@ -150,7 +150,7 @@ Theorem same_reference_no_tick : forall sh op pre c v,
   o_ref (last_out sh op pre c) = false /\
   (ticks c (sel_target op v) = false ->
    forall cid r, In (cid, r) (o_cons (last_out sh op pre c)) ->
-     (c_force c = true \/ (c_poke c = true /\ (cid = 1%nat \/ cid = 2%nat))) /\
+     (c_force c = true \/ (c_poke c = true /\ (cid = 1%nat \/ cid = 2%nat \/ c_nest c = true))) /\
      r_mod r = false /\ r_upd r = [] /\ r_rem r = []).
 Proof. exact RefFacts.same_reference_no_tick_l. Qed.
 Print Assumptions same_reference_no_tick.
@@ -164,14 +164,17 @@ Print Assumptions reference_ticks_iff_retarget.
 (* unselected_never_reaches: in a cycle without retarget in which the designated target
    does not tick, whatever the OTHER targets do, no active consumer is evaluated; a
    consumer evaluated for another reason (its poke input; or c_force: the first cycle
-   of the nested graph holding the consumers, op 3, which evaluates all its nodes) sees
-   modified = false, an empty delta and the unchanged value of the designated target. *)
+   of the nested graph holding the consumers, op 3/5, which evaluates all its nodes; or
+   c_nest, op 5: the reference itself crosses into the nested graph and every evaluation
+   of the nested node — here its poke input — also runs the active consumers inside:
+   finding KF-C13-nested-ref-param-spurious-eval) sees modified = false, an empty delta
+   and the unchanged value of the designated target. *)
 Theorem unselected_never_reaches : forall sh op pre c cid r,
   wf (pre ++ [c]) ->
   spec_sel op (pre ++ [c]) = spec_sel op pre ->
   (forall j, spec_sel op pre = Some j -> ticks c j = false) ->
   In (cid, r) (o_cons (last_out sh op pre c)) ->
-  (c_force c = true \/ (c_poke c = true /\ (cid = 1%nat \/ cid = 2%nat))) /\
+  (c_force c = true \/ (c_poke c = true /\ (cid = 1%nat \/ cid = 2%nat \/ c_nest c = true))) /\
   r_mod r = false /\ r_upd r = [] /\ r_rem r = [] /\
   match spec_sel op pre with
   | Some j => r_valid r = tvalid (spec_tgt sh j pre) /\
@@ -198,12 +201,12 @@ Print Assumptions direct_readers_see_own_history.
 (* A history with: selection of A, ticks of A and B, a same-value selector tick, a
    retarget to B (valid, not ticking in that cycle), a tick of the unselected A. *)
 Definition ex_pre : list cyc :=
-  [mkC 1 (Some 1) [Some [1; 2]; None; None] false false;
-   mkC 2 None [Some [3]; Some [2; 5]; None] true false;
-   mkC 4 (Some 1) [None; Some [6]; None] false false].
-Definition ex_retarget : cyc := mkC 5 (Some 0) [Some [7]; None; None] false false.     (* to B; only A (old) ticks *)
-Definition ex_tick : cyc := mkC 5 None [Some [7]; None; None] true false.              (* the designated A ticks *)
-Definition ex_unsel : cyc := mkC 5 (Some 1) [None; Some [-2]; None] true false.        (* same selection; only B ticks *)
+  [mkC 1 (Some 1) [Some [1; 2]; None; None] false false false;
+   mkC 2 None [Some [3]; Some [2; 5]; None] true false false;
+   mkC 4 (Some 1) [None; Some [6]; None] false false false].
+Definition ex_retarget : cyc := mkC 5 (Some 0) [Some [7]; None; None] false false false.     (* to B; only A (old) ticks *)
+Definition ex_tick : cyc := mkC 5 None [Some [7]; None; None] true false false.              (* the designated A ticks *)
+Definition ex_unsel : cyc := mkC 5 (Some 1) [None; Some [-2]; None] true false false.        (* same selection; only B ticks *)
 
 Example ex_wf : wf (ex_pre ++ [ex_retarget]) /\ wf (ex_pre ++ [ex_tick]) /\ wf (ex_pre ++ [ex_unsel]).
 Proof. unfold wf; simpl; lia. Qed.
@@ -251,6 +254,19 @@ Example ex_nested_consumers :
    [21; 2; 3; 1; 1; 3; 1; 0; 200; 1; 0; 200; 0];
    [20; 0; 4; 1; 1; 4; 1; 0; 200; 1; 0; 200; 0]; [20; 1; 4; 1; 1; 4; 1; 0; 200; 1; 0; 200; 0];
    [20; 3; 4; 1; 1; 4; 1; 0; 200; 1; 0; 200; 0]; [22; 4]].
+Proof. vm_compute. reflexivity. Qed.
+
+(* the REFERENCE crosses into the nested graph (op 5): a poke of the nested node at t=3 also
+   runs the active consumers 0 and 3, which read modified = false *)
+Example ex_nested_ref_param :
+  run_ref [[1; 1; 10; 0; 5]; [2; 0; 2; 1]; [2; 1; 2; 100]; [2; 7; 3; 1]; [2; 2; 4; 200]] =
+  [[20; 0; 1; 0; 0; 0; 0; 0; 0]; [20; 1; 1; 0; 0; 0; 0; 0; 0]; [20; 2; 1; 0; 0; 0; 0; 0; 0];
+   [21; 1; 2; 1; 1; 2; 1; 0; 100; 1; 0; 100; 0];
+   [20; 0; 2; 1; 1; 2; 1; 0; 100; 1; 0; 100; 0]; [20; 1; 2; 1; 1; 2; 1; 0; 100; 1; 0; 100; 0];
+   [20; 3; 2; 1; 1; 2; 1; 0; 100; 1; 0; 100; 0]; [22; 2];
+   [20; 0; 3; 1; 0; 2; 1; 0; 100; 0; 0]; [20; 1; 3; 1; 0; 2; 1; 0; 100; 0; 0];
+   [20; 2; 3; 1; 0; 2; 1; 0; 100; 0; 0]; [20; 3; 3; 1; 0; 2; 1; 0; 100; 0; 0];
+   [21; 2; 4; 1; 1; 4; 1; 0; 200; 1; 0; 200; 0]].
 Proof. vm_compute. reflexivity. Qed.
 
 (* the decoder meets the hypothesis of every theorem on a concrete case file, and the
